@@ -45,6 +45,8 @@ def lift(model, req):
         cands += [b, b[:50]]
         for i in range(min(len(b), 12)):
             cands += [b[i:], '"' + b[i:], '{ f(a: "' + b[i:], '"""' + b[i:]]
+    if "located_error" in str(req.get("target", "")):
+        return lift_resolver_errors()
     if "suggestion_list" in str(req.get("target", "")):
         return lift_suggestions()
     if ".parser." in str(req.get("target", "")).replace(":", ".") and not bodies:
@@ -63,6 +65,39 @@ def lift(model, req):
             except Exception as e:  # noqa: BLE001
                 return {"confirmed": True, "entry": fn.__name__, "input": text,
                         "observed": f"{type(e).__name__}: {e}"}
+    return {"confirmed": False}
+
+
+def lift_resolver_errors():
+    """Resolver exceptions of odd classes: attributes named like those of GraphQLError but of
+    other types.  Each must surface as a located error in the result."""
+    from graphql import build_schema, graphql_sync
+    schema = build_schema("type Query { f: String }")
+    attr_sets = [{"nodes": ["x"]}, {"nodes": "x"}, {"nodes": 5}, {"positions": "abc", "source": "zz"},
+                 {"positions": [None]}, {"positions": 7}, {"positions": ["a"], "source": "q"},
+                 {"source": 5}, {"path": 5}, {"locations": 7}, {"extensions": [1]},
+                 {"original_error": 3}, {"message": None}, {"message": 5}, {"nodes": [None]},
+                 {"nodes": (1, 2)}, {"positions": (1.5,), "source": "abc"}]
+    for attrs in attr_sets:
+        class Odd(Exception):
+            pass
+
+        def resolver(*_a, _attrs=attrs, **_k):
+            e = Odd("boom")
+            for k, v in _attrs.items():
+                setattr(e, k, v)
+            raise e
+        try:
+            r = graphql_sync(schema, "{ f }", root_value={"f": resolver})
+            assert r.errors and r.data == {"f": None}
+            for err in r.errors:
+                f = err.formatted
+                assert isinstance(f.get("message"), str)
+                assert "extensions" not in f or isinstance(f["extensions"], dict)
+        except Exception as ex:  # noqa: BLE001
+            return {"confirmed": True, "entry": "graphql_sync",
+                    "input": {"query": "{ f }", "resolver raises": f"Exception with attributes {attrs!r}"},
+                    "observed": f"{type(ex).__name__}: {ex}"}
     return {"confirmed": False}
 
 
@@ -89,6 +124,18 @@ def lift_suggestions():
 
 
 WITNESSES = {
+ "F16-resolver-exception-with-odd-attributes": r'''
+from graphql import build_schema, graphql_sync
+s = build_schema("type Query { f: String }")
+for attrs in ({"nodes": ["x"]}, {"nodes": 5}, {"positions": "abc", "source": "zz"}, {"positions": [None]}):
+    def res(*a, _attrs=attrs, **k):
+        e = Exception("boom")
+        for n, v in _attrs.items():
+            setattr(e, n, v)
+        raise e
+    r = graphql_sync(s, "{ f }", root_value={"f": res})
+    assert r.data == {"f": None} and r.errors and r.errors[0].message == "boom"
+''',
  "F14-variable-key-whose-lowercase-is-longer": r'''
 from graphql import build_schema, graphql_sync
 s = build_schema("input I { abc: String } type Query { f(i: I): String }")
